@@ -9,7 +9,7 @@ import uuid
 
 from vlib.cond import Cond
 from vlib.fixtures import models as M
-from vlib.prelude import SYMBOLIC, NoTracing, attempt, reached
+from vlib.prelude import SYMBOLIC, Chooser, NoTracing, attempt, reached
 from vlib.props.c05 import deep_same
 from vlib.shapes import (DateS, DateTimeS, DecimalS, DictOf, EnumS, Float, Int, JVal, ListOf, Lit, NoneS, Src, Str, UUIDS_,
                          jparams)
@@ -192,6 +192,47 @@ def make_m(members, spelling, timeout):
     return Cond(f"m/{name}", params_for(_All()), body, mode="E1+picks", timeout=timeout)
 
 
+def make_m_seq(timeout):
+    """marshal is the first acceptor on *every* call of a long-lived union routine, whatever it was given before."""
+    import typing as t
+
+    from typelib import marshals
+
+    unions = [(t.Union[int, str], (int, str)), (t.Union[float, str], (float, str)), (t.Union[decimal.Decimal, str], (decimal.Decimal, str)),
+              (t.Optional[int], (int,)), (t.Union[int, float, str], (int, float, str))]
+    values = ["abc", "12", 7, 2.5, True, decimal.Decimal("1.5"), None, "1.5"]
+
+    def body(c0: int, c1: int, c2: int, c3: int):
+        from vlib import caches
+
+        ch = Chooser((c0, c1, c2, c3))
+        with NoTracing():
+            U, mem = ch.choose(unions)
+            v1, v2 = ch.choose(values), ch.choose(values)
+            caches.clear_all()
+            MU = marshals.marshaller(U)
+            attempt(MU, v1)
+            if ch.flag():
+                attempt(MU, v1)
+            got = attempt(MU, v2)
+            reached()
+            if v2 is None and type(None) in t.get_args(U):
+                return None if got == (True, None) else ("none_not_passed_through_after_history", str(U), _d(v1, v2, got))
+            first = None
+            for m in mem:
+                r = attempt(marshals.marshaller(m), v2)
+                if r[0]:
+                    first = r
+                    break
+            if first is None:
+                return None if not got[0] else ("accepted_though_all_members_reject", str(U), _d(v1, v2, got))
+            if not got[0] or type(got[1]) is not type(first[1]) or got[1] != first[1]:
+                return ("not_first_acceptor_after_history", str(U), _d(v1, v2, got, first))
+        return None
+
+    return Cond("m_seq/two_calls", [(f"c{i}", int) for i in range(4)], body, mode="E3", timeout=timeout)
+
+
 def tuples(tier, seed):
     P = pool()
     n = len(P)
@@ -246,4 +287,5 @@ def conditions(tier, seed):
     from vlib.props import c12
 
     out.append(c12.make_fresh(2 * to))
+    out.append(make_m_seq(2 * to))
     return out
